@@ -383,21 +383,27 @@ func c19Diff(a, b []string) []string {
 	return out
 }
 
-// what kind of path is it: goes through / is a symlink, has a hidden component, or plain
+// what kind of path is it: has a hidden component, goes through / is a symlink, or plain
 func c19Feature(item string) string {
 	p := strings.TrimSuffix(item, "/")
 	comps := c19Components(p)
-	for i := range comps {
-		if st, err := os.Lstat(strings.Join(comps[:i+1], "/")); err == nil && st.Mode()&fs.ModeSymlink != 0 {
-			return "symlink"
-		}
-	}
+	var f []string
 	for _, c := range comps {
 		if strings.HasPrefix(c, ".") {
-			return "hidden"
+			f = append(f, "hidden")
+			break
 		}
 	}
-	return "plain"
+	for i := range comps {
+		if st, err := os.Lstat(strings.Join(comps[:i+1], "/")); err == nil && st.Mode()&fs.ModeSymlink != 0 {
+			f = append(f, "symlink")
+			break
+		}
+	}
+	if len(f) == 0 {
+		return "plain"
+	}
+	return strings.Join(f, "+")
 }
 
 func c19Kind(item string) string {
@@ -405,6 +411,24 @@ func c19Kind(item string) string {
 		return "dir-entry"
 	}
 	return "file-entry"
+}
+
+func c19Walk(r *kit.Run, detail func() map[string]any, roots []string, o walkerOpts, skips []string) ([]string, bool) {
+	var mu sync.Mutex
+	var got []string
+	ok := true
+	r.Guard(detail, func() {
+		rd := NewReader(func(b []byte) bool {
+			mu.Lock()
+			got = append(got, string(b))
+			mu.Unlock()
+			return true
+		}, util.NewEventBox(), nil, false, false)
+		ok = rd.readFiles(roots, o, skips)
+	})
+	r.Eval()
+	sort.Strings(got)
+	return got, ok
 }
 
 func c19Compare(r *kit.Run, top string, tree []c19Node, cf c19Config, stats map[string]int) bool {
@@ -425,21 +449,8 @@ func c19Compare(r *kit.Run, top string, tree []c19Node, cf c19Config, stats map[
 		return false
 	}
 	skips := filterNonEmpty(strings.Split(cf.skip, ","))
-	var mu sync.Mutex
-	var got []string
-	ok := true
-	r.Guard(detail, func() {
-		rd := NewReader(func(b []byte) bool {
-			mu.Lock()
-			got = append(got, string(b))
-			mu.Unlock()
-			return true
-		}, util.NewEventBox(), nil, false, false)
-		ok = rd.readFiles(roots, o, skips)
-	})
-	r.Eval()
+	got, ok := c19Walk(r, detail, roots, o, skips)
 	want := c19Reference(cwd, roots, o, skips, stats)
-	sort.Strings(got)
 	sort.Strings(want)
 	if len(want) > 0 {
 		r.NT()
@@ -476,19 +487,16 @@ func c19Compare(r *kit.Run, top string, tree []c19Node, cf c19Config, stats map[
 		} else {
 			cls = "missing:" + c19Kind(missing[0]) + ":" + c19Feature(missing[0])
 		}
-		if cf.skip != "" && len(extra) > 0 {
-			// would the extra entry have been there without the skip list? then the pruning is what failed
-			noSkip := c19Reference(cwd, roots, o, nil, map[string]int{})
-			for _, w := range noSkip {
-				if w == extra[0] && !strings.HasPrefix(cls, "duplicate") {
-					cls = "skip-not-applied:" + c19Kind(extra[0])
+		if cf.skip != "" {
+			// is the skip list what went wrong? it is when the same walk without a skip list agrees
+			got0, _ := c19Walk(r, detail, roots, o, nil)
+			want0 := c19Reference(cwd, roots, o, nil, map[string]int{})
+			if len(c19Diff(got0, want0))+len(c19Diff(want0, got0)) == 0 {
+				if len(extra) > 0 {
+					cls = "skip:not-pruned:" + c19Kind(extra[0])
+				} else {
+					cls = "skip:over-pruned:" + c19Kind(missing[0])
 				}
-			}
-		}
-		if cf.skip != "" && len(extra) == 0 {
-			noSkip := c19Diff(got, c19Reference(cwd, roots, o, nil, map[string]int{}))
-			if len(noSkip) == 0 {
-				cls = "skip-prunes-too-much:" + c19Kind(missing[0])
 			}
 		}
 		r.Violation(cls, d)
